@@ -401,7 +401,11 @@ def run(ctx):
     cg = prog.callgraph()
     roots = {f.key for f in prog.funcs.values() if f.name.endswith("_constraint") or f.name == "asn_check_constraints"}
     r6 = termination.rule_for(prog, "R08.6", "the constraint checkers", cg.reachable(roots), 8)
-    return [r1, r2, r3, r4, r08_5(prog), r6, r08_7(ctx.prog("K"))]
+    # R08.8: the failure callback is variadic and unchecked by the compiler: every ASN__CTFAIL in the runtime passes what its
+    # format consumes (the message `naming a type` is built from these arguments)
+    from . import c10
+    r8 = c10.r10_14(prog, rid="R08.8", floor=30, what="the runtime (constraint failure callbacks, debug and print helpers)")
+    return [r1, r2, r3, r4, r08_5(prog), r6, r08_7(ctx.prog("K")), r8]
 
 
 GENERIC_CHECKERS = ("asn_generic_no_constraint", "asn_generic_unknown_constraint")
